@@ -1,0 +1,16 @@
+//go:build verif
+
+// Contracts for package scorer (read by /verif/gocv; comment-only effect with the verif tag off).
+
+package scorer
+
+// The term scorer takes a match from the pool (treated as a fresh object, as in the Searcher
+// contract) and copies the reader's id into it; scoring arithmetic, explanations and the copying of
+// term vectors are not under contract.
+//@ func TermQueryScorer.Score
+//@   props C02 C08
+//@   mode int
+//@   trusted scoring arithmetic, explanations and term vector copying are not under contract; the id is copied with NewIndexInternalIDFrom
+//@   requires s != nil && ctx != nil && ctx.DocumentMatchPool != nil && termMatch != nil
+//@   modifies fields(search.DocumentMatch), search.DocumentMatchPool.avail, mem(*search.DocumentMatch)
+//@   ensures result != nil && fresh(result) && fresh(result.IndexInternalID) && len(result.IndexInternalID) == len(termMatch.ID) && idKey(result.IndexInternalID) == idKey(termMatch.ID)
